@@ -330,7 +330,47 @@ def rule_handler_names(ctx) -> None:
               + hazards.controls(ctx, "clematis.engine.health", ["unbound"]))
 
 
+def rule_boot_once(ctx) -> None:
+    """the boot loader runs once per state also when it fails: load_latest_snapshot starts by resetting state.graph / state.gel
+    to empty containers, so if the flag that stops it from running again is set only on success, a snapshot that makes the
+    loader raise wipes the GEL edges built by earlier turns on every later turn - the failure is swallowed, the turn completes,
+    and its records differ from a run that booted with no snapshot.  Must-pass: from the loader call (normal or exceptional
+    continuation) every path to the end of the turn passes the store of the once-flag."""
+    fn = ctx.func(RUN_TURN)
+    cfg = ctx.cfg(fn)
+    loads = [n for n in cfg.nodes if any(call_tail(c) == "load_latest_snapshot" for c in node_calls(n))]
+    if not loads:
+        raise AnalysisError("anchor-vanished: load_latest_snapshot call in run_turn")
+    # the flag: the state key whose truth guards the loader call
+    flags = set()
+    for n in loads:
+        for t, pol, _ in cfg.guards(n):
+            for x in ast.walk(t):
+                if isinstance(x, ast.Name):
+                    for d in ctx.rd(fn).reaching(x.id, n):
+                        if d.value is not None:
+                            flags |= {const_str(z) for z in ast.walk(d.value) if const_str(z) and const_str(z).startswith("_")}
+    flags = {f for f in flags if f}
+    if not flags:
+        raise AnalysisError("anchor-vanished: the once-flag guarding the boot loader")
+    stores = []
+    for n in cfg.nodes:
+        a = n.ast
+        if n.kind == "stmt" and isinstance(a, ast.Assign) and any(isinstance(t, ast.Subscript) and const_str(t.slice) in flags for t in a.targets):
+            stores.append(n)
+        if n.kind == "stmt" and any(call_tail(c) == "setattr" and len(c.args) == 3 and const_str(c.args[1]) in flags for c in node_calls(n)):
+            stores.append(n)
+    ctx.floor("C20.CONT", "stores of the boot once-flag", len(stores), 2)
+    for ld in loads:
+        p = cfg.path([ld], lambda m: m is cfg.exit, avoid=lambda m: m in stores, include_start=False)
+        ctx.check(p is None, "C20.CONT", f"{fn.qual}/boot-loader-runs-once", fn.loc(ld.ast),
+                  f"every continuation of the loader call - also the swallowed failure - sets {sorted(flags)} before the turn goes on",
+                  f"after a failing load_latest_snapshot the turn goes on without setting {sorted(flags)}: the loader runs again on every later turn and each time resets state.graph / state.gel, "
+                  "wiping the GEL edges earlier turns built - the turn completes but its records differ from a run without the snapshot", ctx.path_witness(fn, p))
+
+
 def run(ctx) -> None:
+    rule_boot_once(ctx)
     rule_handler_names(ctx)
     rule_sanit(ctx)
     rule_import_atomic(ctx)
